@@ -128,6 +128,8 @@ def conversions(job):
             for kk in range(2):
                 vv, mm = (1.0, 18.02) if kk == 0 else (job.rng.uniform(1e-6, 10), job.rng.uniform(10, 200))
                 want = Permeance(vv, a).convert(b, _fcomp(mm)).value
+                if not job.on_path(leaf, {"v": vv, "M1": mm, "k": 1.0}):
+                    continue
                 got = terms.evaluate(lift(out.value), {"v": vv, "M1": mm, "k": 1.0})
                 job.validated(tag, close(want, got), "%r vs %r" % (want, got))
         if n == 0:
@@ -197,6 +199,76 @@ def reuse(job):
             cs = dom + leaf.conds()
             job.prove(tag + "/first_component_again", cs, z3.Or(lift(first.value) != v.t * factor(a, Ma) / factor(b, Ma), lift(again.value) != lift(first.value)), R, inputs,
                       fallback=[{"v": 1.0, "M": 18.02, "k": 2.0}])
+
+
+def concrete_chain(inp):
+    """a chain of conversions in which each step is handed its own component: every step is the conversion of the value it receives for
+    the component *it* is given, whatever an earlier step of the chain was given"""
+    v, Ma, Mb = inp.get("v"), inp.get("M"), inp.get("Mb")
+    if v is None or not v >= 0:
+        v = 1.0
+    if Ma is None or not Ma > 0:
+        Ma = 18.02
+    if Mb is None or not Mb > 0 or close(Mb, Ma, 1e-6, 0):
+        Mb = 2.5567 * Ma
+    bad = []
+    ca, cb = _fcomp(Ma, "first"), _fcomp(Mb, "second")
+    for a, m, b in itertools.product(UNITS, UNITS, UNITS):
+        got = Permeance(v, a).convert(m, ca).convert(b, cb)
+        want = v * _ffactor(a, Ma) / _ffactor(m, Ma) * _ffactor(m, Mb) / _ffactor(b, Mb)
+        if not close(got.value, want, 1e-9, 0) or got.units != b:
+            bad.append("%s->%s (component of molar mass %r) ->%s (component of molar mass %r) of %r gives %r %s, expected %r"
+                       % (SHORT[a], SHORT[m], Ma, SHORT[b], Mb, v, got.value, got.units, want))
+        if m != b and Units.kg_m2_h_kPa in (m, b):
+            try:
+                r = Permeance(v, a).convert(m, ca).convert(b)
+                bad.append("%s->%s with a component, then ->%s without one returned %r" % (SHORT[a], SHORT[m], SHORT[b], r.value))
+            except (ValueError, KeyError):
+                pass
+        else:
+            got = Permeance(v, a).convert(m, ca).convert(b)
+            want = v * _ffactor(a, Ma) / _ffactor(m, Ma) * _ffactor(m, 1.0) / _ffactor(b, 1.0)
+            if not close(got.value, want, 1e-9, 0):
+                bad.append("%s->%s with a component, then ->%s without one gives %r, expected %r" % (SHORT[a], SHORT[m], SHORT[b], got.value, want))
+    return {"ok": not bad, "detail": "; ".join(bad[:3]), "inputs": {"v": v, "M": Ma, "Mb": Mb}}
+
+
+def chains(job):
+    """each step of a chain of conversions uses the component handed to that step (27 unit triples, two components, second step also
+    without a component)"""
+    job.bound(unit_triples=27, components_per_chain=2)
+    job.assume("value v >= 0, molar masses M, Mb > 0")
+    v = real("v")
+    ca, cb = build.sym_component("1"), build.sym_component("2")
+    Ma, Mb = ca.molecular_weight, cb.molecular_weight
+    dom = [v.t >= 0, Ma.t > 0, Mb.t > 0]
+    inputs = {"v": v.t, "M": Ma.t, "Mb": Mb.t}
+    RC = "vf.props.C14:concrete_chain"
+    fb = [{"v": 1.0, "M": 18.02, "Mb": 46.07}]
+    for a, m, b in itertools.product(UNITS, UNITS, UNITS):
+        tag = "C14/chain/%s->%s->%s" % (SHORT[a], SHORT[m], SHORT[b])
+        n = 0
+        for leaf in job.explore(lambda: build.perm(v, a).convert(m, ca).convert(b, cb), dom):
+            if leaf.kind != "returned":
+                job.prove(tag + "/no_raise", dom + leaf.pc, z3.BoolVal(True), RC, inputs, fallback=fb)
+                continue
+            n += 1
+            want = v.t * factor(a, Ma) / factor(m, Ma) * factor(m, Mb) / factor(b, Mb)
+            job.prove(tag + "/each_step_its_own_component", dom + leaf.conds(), lift(leaf.value.value) != want, RC, inputs, fallback=fb)
+        if n == 0:
+            job.vacuity["failed"].append(tag + ": no returning path")
+        needs = m != b and Units.kg_m2_h_kPa in (m, b)
+        for leaf in job.explore(lambda: build.perm(v, a).convert(m, ca).convert(b, None), dom):
+            if needs:
+                if leaf.kind == "raised" and isinstance(leaf.value, (ValueError, KeyError)):
+                    job.record(tag + "/second_step_without_component_rejected", "discharged", "raises %s" % type(leaf.value).__name__)
+                else:
+                    job.prove(tag + "/second_step_without_component_rejected", dom + leaf.pc, z3.BoolVal(True), RC, inputs, fallback=fb)
+            elif leaf.kind != "returned":
+                job.prove(tag + "/second_step_without_component/no_raise", dom + leaf.pc, z3.BoolVal(True), RC, inputs, fallback=fb)
+            else:
+                want = v.t * factor(a, Ma) / factor(m, Ma) * factor(m, build.S(1)) / factor(b, build.S(1))
+                job.prove(tag + "/second_step_without_component", dom + leaf.conds(), lift(leaf.value.value) != want, RC, inputs, fallback=fb)
 
 
 def concrete_reject_after(inp):
@@ -333,7 +405,7 @@ BATTERY_EXTRA = [("vf.props.C14:concrete_reject_after", {"v": 1.0}), ("vf.props.
 
 
 def jobs(tier):
-    js = [("conversions", "conversions", {}), ("rejections", "rejections", {}), ("reuse", "reuse", {})]
+    js = [("conversions", "conversions", {}), ("rejections", "rejections", {}), ("reuse", "reuse", {}), ("chains", "chains", {})]
     if tier == "thorough":
         js.append(("crosshair", "crosshair", {}))
     return js
